@@ -30,6 +30,7 @@ func checkC18(p *Prog, r *Report) {
 	ruleC18PadMeasure(p, a, r)
 	ruleC18FloatDiv(p, a, r)
 	ruleC18FloatToInt(p, a, r)
+	ruleC18UintToInt(p, a, r)
 	ruleC18ArgByValue(p, a, r)
 }
 
